@@ -194,6 +194,25 @@ fn main() {
                 Ok(format!("{:?}", first.map(|f| f.keys().cloned().collect::<Vec<_>>())))
             });
         }
+        // ---- C07: error arms of Result and types nothing refers to are not declared
+        if p.name == "graph_only_names" || p.name == "contexts" {
+            for mode in ["none", "zod"] {
+                rep.case("unreachable_types_are_not_declared", &format!("project={} mode={}", p.name, mode), &|| {
+                    let out = root.join(p.name).join(format!("out_unreach_{}", mode));
+                    let _ = fs::remove_dir_all(&out);
+                    let mut cfg = GenerateConfig::default();
+                    cfg.project_path = dir.to_string_lossy().to_string();
+                    cfg.output_path = out.to_string_lossy().to_string();
+                    cfg.validation_library = mode.to_string();
+                    generate_from_config(&cfg).map_err(|e| format!("generate_from_config returned Err: {}", e))?;
+                    let t = fs::read_to_string(out.join("types.ts")).map_err(|e| e.to_string())?;
+                    let (absent, present): (&[&str], &[&str]) = if p.name == "graph_only_names" { (&["Failure", "Orphan"], &["Job", "Outcome"]) } else { (&["Unreachable"], &["Root", "Left", "Right", "Mid"]) };
+                    for n in absent { if t.contains(&format!("interface {} ", n)) || t.contains(&format!("const {}Schema", n)) || t.contains(&format!("type {} ", n)) { return Err(format!("{} is declared in types.ts although it is only an error type / not reachable from any command", n)); } }
+                    for n in present { if !(t.contains(&format!("interface {} ", n)) || t.contains(&format!("const {}Schema", n))) { return Err(format!("{} is reachable but not declared in types.ts", n)); } }
+                    Ok("ok".into())
+                });
+            }
+        }
         // ---- C16: only reserved names are created, foreign files (incl. near-reserved names) untouched
         for mode in ["none", "zod"] {
             rep.case("only_reserved_names_written", &format!("project={} mode={}", p.name, mode), &|| {
